@@ -438,14 +438,14 @@ def build_crate(name, cargo_toml, sources, hooks=True, target="target-corpus", f
     return os.path.join(CACHE, target, "debug", name)
 
 
-def harness_toml(name, deps=("ts-rs",), ts_features=(), extra=""):
+def harness_toml(name, deps=("ts-rs",), ts_features=(), extra="", serde_features=("derive",)):
     lines = ['[package]', 'name = "%s"' % name, 'version = "0.0.0"', 'edition = "2021"', '', '[workspace]', '',
              '[dependencies]']
     if "ts-rs" in deps:
         feats = ", ".join('"%s"' % f for f in ts_features)
         lines.append('ts-rs = { path = "%s/ts-rs", features = [%s] }' % (REPO, feats))
     if "serde" in deps:
-        lines.append('serde = { version = "=1.0.215", features = ["derive"] }')
+        lines.append('serde = { version = "=1.0.215", features = [%s] }' % ", ".join('"%s"' % f for f in serde_features))
     if "serde_json" in deps:
         lines.append('serde_json = "=1.0.133"')
     lines.append(extra)
